@@ -1,4 +1,5 @@
 import HapVerif.Model.Convert
+import HapVerif.Gen.Misc
 import Mathlib.Data.Rat.Floor
 import Mathlib.Tactic.Linarith
 import Mathlib.Tactic.Ring
@@ -396,5 +397,16 @@ example : convert true (some 0) (some 4294967295) (some 1) 1234567 = 1234567 := 
 example : convert true (some 0) (some 4294967295) (some 1) 4294967295 = 4294967295 := by decide +kernel
 example : convert true (some 0) (some 100) (some 5) (25 / 2) = 15 := by decide +kernel
 example : convert false (some 10) (some 38) (some (1 / 2)) (109 / 4) = 55 / 2 := by decide +kernel
+
+/-- tie to the source (regenerated on every run from `check_convert_value`): six significant digits, only outside
+    the integer formats, rounding half up; the integer formats; the final conversions -/
+theorem C14_gen_tie :
+    (∀ q, HapVerif.Convert.ctxRound false q = HapVerif.Convert.roundSig Gen.Misc.convertPrec q) ∧
+    (∀ q, HapVerif.Convert.ctxRound true q = q) ∧
+    Gen.Misc.convertPrecGuard = "char.format not in INTEGER_TYPES" ∧
+    Gen.Misc.convertRounding = "ROUND_HALF_UP" ∧
+    Gen.Misc.integerTypes = ["uint64", "uint32", "uint16", "uint8", "int"] ∧
+    Gen.Misc.convertFinals = ["int(val.to_integral_value())", "float(val)"] :=
+  ⟨fun _ => rfl, fun _ => rfl, by decide, by decide, by decide, by decide⟩
 
 end HapVerif.C14
